@@ -43,9 +43,20 @@ def main():
     mm = load_sysid(repo)
     req = json.load(sys.stdin)
     out = []
-    xml = ("<mujoco><worldbody><body name='b' pos='0.1 0.2 0.3'><joint type='free'/>"
-           "<geom type='box' size='0.1 0.2 0.3' pos='0.05 0 0.1'/></body></worldbody></mujoco>")
-    for th in req["thetas"]:
+    # body variants x compiler.inertiafromgeom in {false, true, auto}: the spec handed to the repo's compiler must
+    # carry whatever apply_body_theta_inertia left in spec.compiler and in the body
+    GEOM = "<geom type='box' size='0.1 0.2 0.3' pos='0.05 0 0.1' density='500'/>"
+    INERTIAL = "<inertial pos='0.01 0.02 0.03' mass='2.5' diaginertia='0.3 0.2 0.25'/>"
+    BODIES = [("geom", GEOM), ("inertial+geom", INERTIAL + GEOM), ("inertial", INERTIAL)]
+    IFG = ["false", "true", "auto"]
+
+    def make_xml(variant):
+        bname, binner = BODIES[variant % 3]
+        ifg = IFG[(variant // 3) % 3]
+        return ("<mujoco><compiler inertiafromgeom='%s'/><worldbody><body name='b' pos='0.1 0.2 0.3'><joint type='free'/>%s</body></worldbody></mujoco>"
+                % (ifg, binner)), bname, ifg
+
+    for k, th in enumerate(req["thetas"]):
         rec = {}
         theta = np.array(th, dtype=float)
         theta0 = theta.copy()
@@ -65,6 +76,9 @@ def main():
         except Exception as e:  # noqa: BLE001
             rec["back_err"] = repr(e)
         if req.get("body", True):
+            variant = req.get("variants", [0] * len(req["thetas"]))[k]
+            xml, bname, ifg = make_xml(variant)
+            rec["variant"] = {"body": bname, "inertiafromgeom_xml": ifg, "has_geom": "geom" in bname}
             try:
                 spec = mujoco.MjSpec.from_string(xml)
                 mm.apply_body_theta_inertia(spec, "b", theta)
@@ -73,6 +87,17 @@ def main():
                                [float(v) for v in np.asarray(b.fullinertia).reshape(-1)])
                 rec["body_inertia_iquat"] = [float(v) for v in b.inertia] + [float(v) for v in b.iquat]
                 rec["explicitinertial"] = bool(b.explicitinertial)
+                rec["inertiafromgeom_after"] = int(spec.compiler.inertiafromgeom)
+                # the same clause with the wheel as EXTERNAL compiler: compile the spec the function produced and read
+                # the parameters back with the repo's pi_from_body / theta_inertia_from_body
+                try:
+                    m = spec.compile()
+                    wb = m.body("b")
+                    rec["wheel_compiled"] = [float(wb.mass[0])] + [float(v) for v in wb.ipos] + [float(v) for v in wb.iquat] + [float(v) for v in wb.inertia]
+                    with np.errstate(all="ignore"):
+                        rec["theta_from_body"] = [float(v) for v in mm.theta_inertia_from_body(spec, "b")]
+                except Exception as e:  # noqa: BLE001
+                    rec["wheel_compile_err"] = repr(e)
             except Exception as e:  # noqa: BLE001
                 rec["body_err"] = repr(e)
         rec["theta_unchanged"] = bool(np.array_equal(theta, theta0))
